@@ -106,7 +106,16 @@ theorem okTyp_renamed {t : String} (h : okTyp t = true) :
     (t == "Str" || t == "Constant" || t == "NameConstant" || t == "Num") = false := by
   unfold okTyp renamedTyps at h
   simp only [Bool.and_eq_true, Bool.not_eq_true', List.contains_cons, List.contains_nil, Bool.or_false] at h
-  simpa [Bool.or_assoc] using h.1.1.1.2
+  have := h.1.1.1.2
+  simp only [Bool.or_eq_false_iff] at this ⊢
+  exact ⟨⟨⟨this.1, this.2.1⟩, this.2.2.1⟩, this.2.2.2.1⟩
+
+theorem okTyp_unaryOp {t : String} (h : okTyp t = true) : t ≠ "UnaryOp" := by
+  unfold okTyp renamedTyps at h
+  simp only [Bool.and_eq_true, Bool.not_eq_true', List.contains_cons, List.contains_nil, Bool.or_false] at h
+  have := h.1.1.1.2
+  simp only [Bool.or_eq_false_iff, beq_eq_false_iff_ne, ne_eq] at this
+  exact this.2.2.2.2
 
 theorem okTyp_dict {t : String} (h : okTyp t = true) : (t == "dict" || startsWith t "*") = false := by
   unfold okTyp at h
@@ -747,5 +756,170 @@ theorem parseClass_body (env : Env) (it : Bool) (cfg : Cfg) (ir : IR) (name : St
   · simp only [hds, Bool.false_eq_true, ↓reduceIte, List.cons_append, List.nil_append, List.isEmpty_cons, List.map_cons, Stmt.reparse, splitDoc,
       List.map_map]
     rfl
+
+/-! ## class / pydantic: the round trip -/
+
+theorem normDoc_empty : normDoc "" = none := by decide
+
+theorem docView_false (d : Option String) : docView false d = d.bind normDoc := by
+  cases d with
+  | none => rfl
+  | some d0 =>
+    unfold docView
+    by_cases h : d0 = ""
+    · subst h; simp [normDoc_empty]
+    · simp [h]
+
+theorem dhas_false_of_not_mem (d : Dict) (k : String) (h : k ∉ dkeys d) : dhas d k = false := by
+  unfold dhas
+  simp only [List.any_eq_false, beq_iff_eq]
+  intro x hx he
+  exact h (by simp only [dkeys, List.mem_map]; exact ⟨x, hx, he⟩)
+
+theorem dget?_none_of_not_mem (d : Dict) (k : String) (h : k ∉ dkeys d) : dget? d k = none := by
+  unfold dget?
+  have : d.find? (fun x => x.1 == k) = none := by
+    simp only [List.find?_eq_none, beq_iff_eq]
+    intro x hx he
+    exact h (by simp only [dkeys, List.mem_map]; exact ⟨x, hx, he⟩)
+  simp [this]
+
+theorem dget?_snoc (d : Dict) (k : String) (p : Param) (h : k ∉ dkeys d) : dget? (d ++ [(k, p)]) k = some p := by
+  unfold dget?
+  have : d.find? (fun x => x.1 == k) = none := by
+    simp only [List.find?_eq_none, beq_iff_eq]
+    intro x hx he
+    exact h (by simp only [dkeys, List.mem_map]; exact ⟨x, hx, he⟩)
+  simp [List.find?_append, this]
+
+theorem dpop_snoc (d : Dict) (k : String) (p : Param) (h : k ∉ dkeys d) : dpop (d ++ [(k, p)]) k = d := by
+  unfold dpop
+  simp only [List.filter_append, List.filter_cons, beq_self_eq_true, Bool.not_true, Bool.false_eq_true, ↓reduceIte, List.filter_nil,
+    List.append_nil, List.filter_eq_self, Bool.not_eq_true', beq_eq_false_iff_ne, ne_eq]
+  intro x hx he
+  exact h (by simp only [dkeys, List.mem_map]; exact ⟨x, hx, he⟩)
+
+theorem dkeys_zipUpd : ∀ (P0 : Dict) (L : List (String × Param)), aligned P0 L = true → dkeys (zipUpd P0 L) = dkeys P0
+  | [], [], _ => rfl
+  | [], _ :: _, h => by simp [aligned] at h
+  | _ :: _, [], h => by simp [aligned] at h
+  | kv0 :: P0, kv :: L, h => by
+    simp only [aligned, Bool.and_eq_true] at h
+    have ih := dkeys_zipUpd P0 L h.2
+    simp only [dkeys] at ih ⊢
+    simp [zipUpd, ih]
+
+theorem mergedParams_none (ir : IR) (hr : ir.returns = none) : mergedParams ir = ir.params := by
+  unfold mergedParams; simp [hr]
+
+theorem mergedParams_some (ir : IR) (r : Param) (hr : ir.returns = some r) (hk : "return_type" ∉ dkeys ir.params) :
+    mergedParams ir = ir.params ++ [("return_type", r)] := by
+  unfold mergedParams; simp [hr, dset, dhas_false_of_not_mem _ _ hk]
+
+def classRoundTrip (env : Env) (it : Bool) (cfg : Cfg) (ir : IR) : Except String (List PV × Option PV) := do
+  let t ← emitClass env cfg ir
+  let ir' ← parseClass env it t.reparse
+  pure ir'.view
+
+theorem class_roundtrip (env : Env) (hEnv : EnvOK env) (it : Bool) (cfg : Cfg) (ir : IR)
+    (hD : inD02Class ir = true) (hH : classHyp env cfg ir = true) :
+    classRoundTrip env it cfg ir = .ok ir.view := by
+  unfold inD02Class at hD
+  simp only [Bool.and_eq_true, List.all_eq_true] at hD
+  obtain ⟨⟨⟨⟨hname, hnd⟩, _⟩, hall⟩, hret⟩ := hD
+  obtain ⟨name, hname⟩ := Option.isSome_iff_exists.mp hname
+  have hnd : (dkeys ir.params).Nodup := by simpa [namesOk] using hnd
+  have hrt : "return_type" ∉ dkeys ir.params := by
+    intro hm
+    simp only [dkeys, List.mem_map] at hm
+    obtain ⟨kv, hkv, he⟩ := hm
+    exact (okName_facts (okParam_facts (hall kv hkv)).1).2 he
+  have hstar : ∀ kv ∈ ir.params, okAttr kv = true ∧ startsWith kv.1 "*" = false := by
+    intro kv hkv
+    refine ⟨okParam_okAttr (hall kv hkv), ?_⟩
+    have := (okName_facts (okParam_facts (hall kv hkv)).1).1
+    simp only [Bool.or_eq_false_iff] at this
+    exact this.2
+  unfold classHyp at hH
+  simp only [Bool.and_eq_true, Bool.or_eq_true] at hH
+  obtain ⟨hfa, hretdoc⟩ := hH
+  unfold classRoundTrip
+  cases hr : ir.returns with
+  | none =>
+    rw [mergedParams_none ir hr] at hfa
+    have hattr : ∀ kv ∈ mergedParams ir, okAttr kv = true := by
+      rw [mergedParams_none ir hr]; exact fun kv hkv => (hstar kv hkv).1
+    rw [emitClass_ok env hEnv cfg ir name hname hattr]
+    simp only [bind, Except.bind]
+    rw [parseClass_body, mergedParams_none ir hr]
+    have hal := forall2_aligned env _ _ hfa
+    have hkeys := aligned_keys _ _ hal
+    have hpop : popRet (clsDocIR0 env cfg ir) = clsDocIR0 env cfg ir := by
+      unfold popRet; rw [dget?_none_of_not_mem _ _ (by rw [hkeys]; exact hrt)]
+    have hfold := classFold_params ir.params (clsDocIR0 env cfg ir).params [] (clsDocIR0 env cfg ir) hal
+      (by simpa [hkeys] using hnd) hstar
+    simp only [List.nil_append] at hfold
+    rw [hpop, hfold]
+    obtain ⟨hm, hv⟩ := class_entries env it _ _ hfa hall
+    simp only [bind, Except.bind, hm, pure, Except.pure]
+    have hdr : (clsDocIR0 env cfg ir).returns = none := by
+      rcases hretdoc with h | h
+      · simp [hr] at h
+      · simpa using h
+    simp [IR.view, hv, hdr, hr]
+  | some r =>
+    have hmp := mergedParams_some ir r hr hrt
+    rw [hmp] at hfa
+    obtain ⟨P0, kv0r, hsplit, hfa0, her⟩ := forall2_snoc _ _ _ _ hfa
+    have hretok : okClassReturn r = true := by simpa [hr] using hret
+    have hattr : ∀ kv ∈ mergedParams ir, okAttr kv = true := by
+      rw [hmp]; intro kv hkv
+      rcases List.mem_append.mp hkv with h | h
+      · exact (hstar kv h).1
+      · simp only [List.mem_singleton] at h; subst h; exact okClassReturn_okAttr hretok
+    rw [emitClass_ok env hEnv cfg ir name hname hattr]
+    simp only [bind, Except.bind]
+    rw [parseClass_body, hmp]
+    have hal := forall2_aligned env _ _ hfa0
+    have hkeys := aligned_keys _ _ hal
+    unfold clsEntryOK at her
+    simp only [Bool.and_eq_true, beq_iff_eq] at her
+    obtain ⟨⟨hk0, hdesc⟩, hdef⟩ := her
+    obtain ⟨k0, p0r⟩ := kv0r
+    simp only at hk0; subst hk0
+    have hrt0 : "return_type" ∉ dkeys P0 := by rw [hkeys]; exact hrt
+    have hpop : popRet (clsDocIR0 env cfg ir) = { clsDocIR0 env cfg ir with params := P0, returns := some p0r } := by
+      unfold popRet; rw [hsplit, dget?_snoc _ _ _ hrt0, dpop_snoc _ _ _ hrt0]
+    rw [hpop, List.map_append, List.foldlM_append]
+    have hfold := classFold_params ir.params P0 [] { clsDocIR0 env cfg ir with params := P0, returns := some p0r } hal
+      (by simpa [hkeys] using hnd) hstar
+    simp only [List.nil_append] at hfold
+    rw [hfold]
+    simp only [bind, Except.bind, List.map_cons, List.map_nil, List.foldlM_cons, List.foldlM_nil]
+    have hstep := classStep_ret { clsDocIR0 env cfg ir with params := zipUpd P0 ir.params, returns := some p0r } r
+      (dhas_false_of_not_mem _ _ (by simpa [dkeys_zipUpd _ _ hal] using hrt0)) (okClassReturn_okAttr hretok)
+    simp only at hstep
+    rw [hstep]
+    obtain ⟨hm, hv⟩ := class_entries env it _ _ hfa0 hall
+    simp only [bind, Except.bind, hm, pure, Except.pure, Option.getD_some]
+    -- the return entry
+    unfold clsDescOK at hdesc
+    simp only [beq_self_eq_true, ↓reduceIte, beq_iff_eq] at hdesc
+    rw [docView_false] at hdesc
+    have hrv : (updOf ("return_type", r) p0r).view "return_type" = r.view "return_type" := by
+      unfold okClassReturn at hretok
+      cases ht : r.typ with
+      | none => simp [ht] at hretok
+      | some t =>
+        simp only [ht, Bool.and_eq_true] at hretok
+        cases hd : r.default with
+        | none =>
+          have h0 : p0r.default = none := by unfold clsDefaultOK at hdef; simpa [hd] using hdef
+          simp [updOf, Param.view, ht, hd, h0, hdesc]
+        | some dv =>
+          cases dv with
+          | val d => simp [updOf, Param.view, ht, hd, hdesc]
+          | node e => simp [hd] at hretok
+    simp [IR.view, hv, hrv, hr]
 
 end Iface
